@@ -18,3 +18,10 @@ Definition run_module (fuel : N) (oracles : list oracle) (m : block) : list (N *
   map (fun d => match d with (_, k, body) =>
          (k, map (fun o => let '(out, t) := run (N.to_nat fuel) o body in (outcome_code out, t)) oracles) end)
       (module_defs m).
+
+(* mccabe of the definition at line k0 of module m for a given dead set (the implementation's own findings) *)
+Definition mccabe_at (m : block) (k0 : N) (dead : list N) : N :=
+  match filter (fun d => N.eqb (snd (fst d)) k0) (module_defs m) with
+  | (_, _, body) :: _ => N.of_nat (mccabe dead body)
+  | [] => 0%N
+  end.
